@@ -36,12 +36,6 @@ _CV = CharRexValidator()
 _CLS = "timeUnits"
 
 
-def _K(fid, verdict):      # TEST-ONLY hard-wired exclusion; replaced by R.known before finishing
-    import os
-    off = os.environ.get("VP_NO_EXCLUDE", "")
-    return bool(verdict) and not (off == "1" or fid in off.split(","))
-
-
 def _errors(issues):
     return [i["code"] for i in issues if i["severity"] == ErrorSeverity.ERROR]
 
@@ -57,6 +51,9 @@ NUC = len(_UC) + 1
 # classes of the first character of a number text
 _VC = ["0", "1", "+", "-", ".", " ", "e"]
 NVC = len(_VC) + 1
+# the same for a bare value (no blank inside)
+_VB = ["0", "1", "+", "-", ".", "e"]
+NVB = len(_VB) + 1
 
 
 def _head(t, head):
@@ -200,7 +197,7 @@ def unit_accept_convert(t: str) -> bool:
     pre: _tail_cell(t, 4, _UC, R.N(4), 1)
     pre: R.ascii_printable(t)
     pre: _none_of(t, 4, " /")
-    pre: not _K("C11-name-case-conversion", _kf_case(_T, _CLS, t[4:]))
+    pre: not R.known("C11-name-case-conversion", _kf_case(_T, _CLS, t[4:]))
     post: _
     """
     chfloat.exact(True)                         # the number text is the constant "3": CPython's own float("3")
@@ -247,9 +244,9 @@ def value_unit_agree(t: str) -> bool:
     """
     pre: _ab_shape(t, "C/", 4, 8)
     pre: R.ascii_printable(t)
-    pre: not _K("C11-name-case-conversion", _kf_case(_TU, "timeUnits", t[_blank(t) + 1:]))
-    pre: not _K("C11-junk-before-unit", _kf_junk(_TU, "timeUnits", t[2:_blank(t)], t[_blank(t) + 1:]))
-    pre: not _K("C11-empty-number-raises", _kf_empty_number(_TU, "timeUnits", t[2:_blank(t)], t[_blank(t) + 1:]))
+    pre: not R.known("C11-name-case-conversion", _kf_case(_TU, "timeUnits", t[_blank(t) + 1:]))
+    pre: not R.known("C11-junk-before-unit", _kf_junk(_TU, "timeUnits", t[2:_blank(t)], t[_blank(t) + 1:]))
+    pre: not R.known("C11-empty-number-raises", _kf_empty_number(_TU, "timeUnits", t[2:_blank(t)], t[_blank(t) + 1:]))
     post: _
     """
     chfloat.exact(False)
@@ -261,9 +258,9 @@ def prefix_unit_agree(t: str) -> bool:
     """
     pre: _ab_shape(t, "M/", 4, 8)
     pre: R.ascii_printable(t)
-    pre: not _K("C11-name-case-conversion", _kf_case(_TU, "currencyUnits", t[_blank(t) + 1:]))
-    pre: not _K("C11-junk-before-unit", _kf_junk(_TU, "currencyUnits", t[2:_blank(t)], t[_blank(t) + 1:]))
-    pre: not _K("C11-empty-number-raises", _kf_empty_number(_TU, "currencyUnits", t[2:_blank(t)], t[_blank(t) + 1:]))
+    pre: not R.known("C11-name-case-conversion", _kf_case(_TU, "currencyUnits", t[_blank(t) + 1:]))
+    pre: not R.known("C11-junk-before-unit", _kf_junk(_TU, "currencyUnits", t[2:_blank(t)], t[_blank(t) + 1:]))
+    pre: not R.known("C11-empty-number-raises", _kf_empty_number(_TU, "currencyUnits", t[2:_blank(t)], t[_blank(t) + 1:]))
     post: _
     """
     chfloat.exact(False)
@@ -274,8 +271,8 @@ def prefix_unit_agree(t: str) -> bool:
 def numeric_pattern(v: str) -> bool:
     """
     pre: _tail_cell(v, 0, _VC, R.N(4))
-    pre: not _K("C11-unicode-digits", _kf_unidigit(v))
-    pre: not _K("C11-numeric-trailing-newline", _kf_newline(v))
+    pre: not R.known("C11-unicode-digits", _kf_unidigit(v))
+    pre: not R.known("C11-numeric-trailing-newline", _kf_newline(v))
     post: _
     """
     got = bool(_CV.is_valid_value(v, "numericClass"))
@@ -285,7 +282,7 @@ def numeric_pattern(v: str) -> bool:
 def bare_number(t: str) -> bool:
     """
     pre: _head(t, "C/")
-    pre: _tail_cell(t, 2, _VC, R.N(4), 1)
+    pre: _tail_cell(t, 2, _VB, R.N(3), 1)
     pre: R.ascii_printable(t)
     pre: _none_of(t, 2, " /#")
     post: _
@@ -374,9 +371,9 @@ HARNESSES = [
         stubs=[_STUBS[2]], outside="strings longer than the bound; the legacy helper is_numeric_value_class (not on the "
                                    "validation path)"),
     R.H("bare_number", _TT,
-        quick=R.tier(cells=R.str_cells(4, split1_from=4, nclass=NVC, minlen=1), env={"VP_N": 4}, timeout=300,
-                     bound="tag `C/<v>` on MINI, printable ASCII v without blank, '/' or '#', 1 <= len(v) <= 4"),
-        thorough=R.tier(cells=R.str_cells(5, split1_from=3, nclass=NVC, minlen=1), env={"VP_N": 5}, timeout=1500,
+        quick=R.tier(cells=R.str_cells(3, split1_from=3, nclass=NVB, minlen=1), env={"VP_N": 3}, timeout=300,
+                     bound="tag `C/<v>` on MINI, printable ASCII v without blank, '/' or '#', 1 <= len(v) <= 3"),
+        thorough=R.tier(cells=R.str_cells(5, split1_from=3, nclass=NVB, minlen=1), env={"VP_N": 5}, timeout=1500,
                         path_timeout=60, bound="same, 1 <= len(v) <= 5"),
         what="a bare value: v is a number (N1) <=> validate_units reports exactly one issue, the UNITS_MISSING warning, "
              "and value_as_default_unit returns a float (default unit); otherwise an error is reported",
